@@ -72,6 +72,15 @@ type keysetAEAD interface {
 	Decrypt(ct, ad []byte) ([]byte, error)
 }
 
+// countingKEK counts how often the key-encryption key is consulted.
+type countingKEK struct {
+	inner keysetAEAD
+	n     int
+}
+
+func (c *countingKEK) Encrypt(pt, ad []byte) ([]byte, error) { c.n++; return c.inner.Encrypt(pt, ad) }
+func (c *countingKEK) Decrypt(ct, ad []byte) ([]byte, error) { c.n++; return c.inner.Decrypt(ct, ad) }
+
 func dump(d *db.DB) (string, error) {
 	l, err := d.List(super)
 	if err != nil {
@@ -154,11 +163,12 @@ func main() {
 		out(map[string]any{"ev": "verify", "err": errStr(err), "data": b, "mode": mode})
 		return
 	}
-	kek, err := loadKey(sc.Key)
+	rawKEK, err := loadKey(sc.Key)
 	if err != nil {
 		fmt.Fprintln(os.Stderr, "key:", err)
 		os.Exit(3)
 	}
+	kek := &countingKEK{inner: rawKEK}
 	if sc.Mode == "verify" {
 		d, err := db.Open(path, kek, audit.New(io.Discard))
 		if err != nil {
@@ -212,19 +222,19 @@ func main() {
 			}
 		}
 		dm, _ := dump(d)
-		out(map[string]any{"ev": "pre", "sha": sha(path), "dump": dm, "gen": d.WriteGen()})
+		out(map[string]any{"ev": "pre", "sha": sha(path), "dump": dm, "gen": d.WriteGen(), "kek": kek.n})
 		os.Stat("/verif-marker-begin")
 		ver, operr := apply(d, *sc.Test)
 		os.Stat("/verif-marker-end")
 		out(map[string]any{"ev": "op", "err": errStr(operr), "ver": ver})
 	}
 	dm, derr := dump(d)
-	out(map[string]any{"ev": "post", "sha": sha(path), "dump": dm, "gen": d.WriteGen(), "err": errStr(derr)})
+	out(map[string]any{"ev": "post", "sha": sha(path), "dump": dm, "gen": d.WriteGen(), "err": errStr(derr), "kek": kek.n})
 	var res []string
 	for _, op := range sc.Follow {
 		v, err := apply(d, op)
 		res = append(res, fmt.Sprintf("%d/%s", v, errStr(err)))
 	}
 	dm, derr = dump(d)
-	out(map[string]any{"ev": "final", "sha": sha(path), "dump": dm, "gen": d.WriteGen(), "follow": res, "err": errStr(derr)})
+	out(map[string]any{"ev": "final", "sha": sha(path), "dump": dm, "gen": d.WriteGen(), "follow": res, "err": errStr(derr), "kek": kek.n})
 }
